@@ -233,7 +233,7 @@ def main() -> int:
                 chk.note_inconclusive("monitor saw nothing: %s = 0" % name)
         if c.get("reference_abstained", 0) * 20 > max(chk.evaluations, 1):
             chk.note_inconclusive("reference abstained on more than 5%% of the cases (%d)" % c["reference_abstained"])
-    return chk.finish(RULE, talref.ASSUMPTIONS, extra={
+    return chk.finish(RULE, talref.ASSUMPTIONS, min_distinct=0 if chk.replay_case else 2, extra={
         "distinct_per_element_command_subsets": len(SUBSETS) if chk.args.shard is None and SUBSETS else "see shards"})
 
 
